@@ -183,6 +183,12 @@ fn p_grid(rng: &mut Rng, n: usize, nrand: usize) -> Vec<f64> {
         g.push(b);
         if b > 0.0 { g.push(f64::from_bits(b.to_bits() - 1)); }
         if b < 1.0 { g.push(f64::from_bits(b.to_bits() + 1)); }
+        // well off the boundary by everyday standards, but close: n*p is not a whole number here
+        for j in [48, 40, 33, 30, 27, 24, 20, 14] {
+            let d = 2f64.powi(-j);
+            if b - d > 0.0 { g.push(b - d); }
+            if b + d < 1.0 { g.push(b + d); }
+        }
     }
     for _ in 0..nrand { g.push(rng.unit()); }
     g
@@ -201,6 +207,19 @@ pub fn c07(out: &mut Out, tier: &str, rng: &mut Rng) {
             for _ in 0..len { v.push(alphabet[c % 4]); c /= 4; }
             seqs.push(v);
         }
+    }
+    // the ends of the finite range: the top binade (|x| > f64::MAX/2), the smallest normal and subnormal numbers
+    let extreme = [f64::MAX, -f64::MAX, 1e308, 1.5e308, -1.2e308, f64::MIN_POSITIVE, 5e-324, -5e-324, 1e-310, 0.0];
+    for len in 1..=2usize {
+        for code in 0..extreme.len().pow(len as u32) {
+            let mut c = code; let mut v = Vec::new();
+            for _ in 0..len { v.push(extreme[c % extreme.len()]); c /= extreme.len(); }
+            seqs.push(v);
+        }
+    }
+    for _ in 0..(if tier == "thorough" { 600 } else { 120 }) {
+        let n = 3 + rng.below(2);
+        seqs.push((0..n).map(|_| if rng.unit() < 0.7 { *rng.pick(&extreme) } else { rng.normal() * 10f64.powi(rng.below(600) as i32 - 300) }).collect());
     }
     if tier == "thorough" {
         for _ in 0..300 { let n = 1 + rng.below(4); seqs.push((0..n).map(|_| crate::data::clamp_domain(rng.normal() * 10f64.powi(rng.below(40) as i32 - 20))).collect()); }
